@@ -128,7 +128,33 @@ func (fs *FS) mountPoint(path string) (_ hackpadfs.FS, mountPoint, subPath strin
 // Open implements hackpadfs.FS
 func (fs *FS) Open(name string) (hackpadfs.File, error) {
 	mountFS, subPath := fs.Mount(name)
-	return mountFS.Open(subPath)
+	file, err := mountFS.Open(subPath)
+	if err != nil {
+		return nil, withPath(err, name)
+	}
+	return file, nil
+}
+
+// withPath returns 'err' with its path replaced by the caller's 'name', if it is a *PathError.
+// Used for operations whose errors always name the path they were called with.
+func withPath(err error, name string) error {
+	if pathErr, ok := err.(*hackpadfs.PathError); ok {
+		return &hackpadfs.PathError{Op: pathErr.Op, Path: name, Err: pathErr.Err}
+	}
+	return err
+}
+
+// renameErr returns 'err' as a rename *LinkError in terms of the caller's names, nil if 'err' is nil.
+func renameErr(err error, oldname, newname string) error {
+	switch e := err.(type) {
+	case nil:
+		return nil
+	case *hackpadfs.PathError:
+		err = e.Err
+	case *hackpadfs.LinkError:
+		err = e.Err
+	}
+	return &hackpadfs.LinkError{Op: "rename", Old: oldname, New: newname, Err: err}
 }
 
 // Point represents a mount point, including any relevant metadata
@@ -156,7 +182,7 @@ func (fs *FS) Rename(oldname, newname string) error {
 	newMount, newPoint, newSubPath := fs.mountPoint(newname)
 	oldInfo, err := hackpadfs.Stat(oldMount, oldSubPath)
 	if err != nil {
-		return &hackpadfs.LinkError{Op: "rename", Old: oldname, New: newname, Err: err}
+		return renameErr(err, oldname, newname)
 	}
 	if oldname == newname {
 		if !oldInfo.IsDir() {
@@ -166,7 +192,7 @@ func (fs *FS) Rename(oldname, newname string) error {
 	}
 
 	if oldPoint == newPoint {
-		return hackpadfs.Rename(oldMount, oldSubPath, newSubPath)
+		return renameErr(hackpadfs.Rename(oldMount, oldSubPath, newSubPath), oldname, newname)
 	}
 	if oldInfo.IsDir() {
 		// TODO support renaming directories
@@ -175,12 +201,12 @@ func (fs *FS) Rename(oldname, newname string) error {
 
 	oldFile, err := oldMount.Open(oldSubPath)
 	if err != nil {
-		return err
+		return renameErr(err, oldname, newname)
 	}
 	defer func() { _ = oldFile.Close() }()
 	newFile, err := hackpadfs.OpenFile(newMount, newSubPath, hackpadfs.FlagWriteOnly|hackpadfs.FlagCreate|hackpadfs.FlagTruncate, oldInfo.Mode())
 	if err != nil {
-		return err
+		return renameErr(err, oldname, newname)
 	}
 	newFileWriter, ok := newFile.(io.Writer)
 	if !ok {
@@ -190,7 +216,7 @@ func (fs *FS) Rename(oldname, newname string) error {
 	_, err = io.Copy(newFileWriter, oldFile)
 	if err != nil {
 		_ = hackpadfs.Remove(newMount, newSubPath)
-		return err
+		return renameErr(err, oldname, newname)
 	}
-	return hackpadfs.Remove(oldMount, oldSubPath)
+	return renameErr(hackpadfs.Remove(oldMount, oldSubPath), oldname, newname)
 }
